@@ -380,7 +380,17 @@ def d5_projections(ctx, mod):
                           "%s is copied from %s: (v_i, G v_j) = (v_j, G v_i) holds only for a symmetric G(t), prune() does not symmetrise its target" % (tg, unparse(one.value)), mod.loc(one))
                 continue
             mx = MatX(mod, None, inline=False)
-            g = mx.t(one.value)
+            # `for i, v in enumerate(evecs)` is the index loop over the Ntrunc vectors with v = evecs[i]
+            subst_, enum_loops = {}, {}
+            q_ = mod.parents.get(one)
+            while q_ is not None and q_ is not f:
+                if isinstance(q_, ast.For) and isinstance(q_.iter, ast.Call) and call_name(q_.iter) == 'enumerate' and len(q_.iter.args) == 1 and unparse(q_.iter.args[0]) == 'evecs' \
+                        and isinstance(q_.target, ast.Tuple) and len(q_.target.elts) == 2 and all(isinstance(x_, ast.Name) for x_ in q_.target.elts):
+                    subst_[q_.target.elts[1].id] = 'evecs[%s]' % q_.target.elts[0].id
+                    enum_loops[id(q_)] = q_.target.elts[0].id
+                q_ = mod.parents.get(q_)
+            from .C14 import _subst as _sub14
+            g = mx.t(_sub14(one.value, subst_))
             ok = g[0] == 'matmul' and len(g) == 4 and g[1] == ('T', ('idx', S('evecs'), idx[0])) and g[3] == ('idx', S('evecs'), idx[1]) and g[2] in (('idx', S('self'), 't'), ('idx', ('attr', S('self'), 'content'), 't'))
             ctx.check(rule, key + ('' if k_ == 0 else '#%d' % k_), ok, "G'(t)[i, j] = v_i^T G(t) v_j", 'projection %s = %s' % (tg, show(g)), mod.loc(one))
             if not ok:
@@ -392,6 +402,8 @@ def d5_projections(ctx, mod):
             while p_ is not None and p_ is not f:
                 if isinstance(p_, ast.For) and isinstance(p_.target, ast.Name) and p_.target.id in idx:
                     loops.append(p_)
+                elif isinstance(p_, ast.For) and id(p_) in enum_loops and enum_loops[id(p_)] in idx:
+                    loops.append(p_)
                 p_ = mod.parents.get(p_)
             loops = loops[::-1]
 
@@ -401,13 +413,17 @@ def d5_projections(ctx, mod):
                         covered.add((env[idx[0]], env[idx[1]]))
                     return
                 lp = loops[k]
-                try:
-                    rng = eval(compile(ast.Expression(body=lp.iter), '<range>', 'eval'), {'__builtins__': {'range': range, 'len': len}}, dict(env))
-                except Exception as ex:
-                    raise Unrecognised('loop range %s: %s' % (unparse(lp.iter), ex))
+                if id(lp) in enum_loops:
+                    rng, tname = range(env['Ntrunc']), enum_loops[id(lp)]       # evecs holds the Ntrunc lowest states
+                else:
+                    tname = lp.target.id
+                    try:
+                        rng = eval(compile(ast.Expression(body=lp.iter), '<range>', 'eval'), {'__builtins__': {'range': range, 'len': len}}, dict(env))
+                    except Exception as ex:
+                        raise Unrecognised('loop range %s: %s' % (unparse(lp.iter), ex))
                 for v_ in rng:
                     e2 = dict(env)
-                    e2[lp.target.id] = v_
+                    e2[tname] = v_
                     sim(k + 1, e2)
             sim(0, {'Ntrunc': 3})
         if n_direct:
@@ -432,7 +448,18 @@ def d6_pencil(ctx):
     m = ctx.repo.mod('mpm')
     f = m.func('matrix_pencil_method')
     hk = [c for c in walk(f) if isinstance(c, ast.Call) and (m.dotted(c.func) or '') == 'scipy.linalg.hankel']
-    ok = len(hk) == 1 and [unparse(a) for a in hk[0].args] == ['data[n][:n_data - p]', 'data[n][n_data - p - 1:]']
+    ok = False
+    if len(hk) == 1 and len(hk[0].args) == 2 and all(isinstance(a, ast.Subscript) and isinstance(a.slice, ast.Slice) for a in hk[0].args):
+        a0, a1 = hk[0].args
+        row = unparse(a0.value)
+        # the row is data[n] of an index loop or the element of a loop / comprehension over data
+        is_row = row == 'data[n]'
+        q_ = m.parents.get(hk[0])
+        while q_ is not None and q_ is not f and not is_row:
+            gens = q_.generators if isinstance(q_, (ast.ListComp, ast.GeneratorExp)) else ([q_] if isinstance(q_, ast.For) else [])
+            is_row = any(unparse(g_.target) == row and unparse(g_.iter) == 'data' for g_ in gens)
+            q_ = m.parents.get(q_)
+        ok = is_row and unparse(a1.value) == row and unparse(a0.slice) == ':n_data - p' and unparse(a1.slice) == 'n_data - p - 1:'
     ctx.check(rule, 'mpm.py:matrix_pencil_method#hankel', ok, 'Hankel matrix with first column x[0..N-p-1] and last row x[N-p-1..N-1] (shared corner element)', 'hankel call %s' % [unparse(c) for c in hk])
     y1, y2 = find_def(f, 'y1'), find_def(f, 'y2')
     ok = len(y1) == 1 and len(y2) == 1 and unparse(y1[0].value) == 'np.concatenate(matrix[:, :, :p])' and unparse(y2[0].value) == 'np.concatenate(matrix[:, :, 1:])'
